@@ -1,26 +1,37 @@
 //! C08 — DBSCAN and OPTICS against the density-clustering definition.
 //!
-//! Per configuration (point set, metric, tolerance, min_points) and per neighbour index the harness
-//! records what `within_range` returns for every sample (order kept) and the distances the real
-//! `dist_fn` computes for those pairs, runs the real `Dbscan` / `Optics` transform, and emits
-//!   `dbscan n= mp= zd= nb=`            -> `ok <labels>`
-//!   `optics n= mp= zd= nb= nd=`        -> `ok idx:core:reach;…`
+//! Per configuration (point set, metric, tolerance, min_points, scalar type, memory layout, calling
+//! form, constructor form) and per neighbour index the harness records what `within_range` returns for
+//! every sample (order kept, index built on a C-order copy) and the distances the real `dist_fn`
+//! computes for those pairs, runs the real `Dbscan` / `Optics` transform on the chosen layout / form,
+//! and emits
+//!   `dbscan n= mp= zd= nb=`            -> `ok <canonical labels>`
+//!   `optics n= mp= zd= nb= nd=`        -> `ok idx:core:reach;… margin=~…`
+//!   `params algo= ty= mp= tol= notol=` -> `ok mp= tol=` | `err MinPoints` | `err Tolerance`
 //! The Lean model is run on the same neighbour lists / distances, so every comparison is exact.
+//!
+//! What is compared (only what the statement fixes):
+//!   * DBSCAN: noise `-`; core samples by cluster, clusters renumbered by first core sample; a border
+//!     sample by the cluster of the core samples that reach it, or `b` when core samples of two clusters
+//!     reach it (the statement allows either).  The raw labels are judged by the oracle.
+//!   * OPTICS: the whole ordering, unless the model met a tie between two seeds of equal reachability
+//!     (`margin=~0`): the statement fixes no tie-break, the case is then left to the oracle alone.
 //!
 //! Oracle (textbook definition, recomputed by brute force):
 //!   stream=main   : the tolerance is separated from every inter-point distance (relative margin
-//!                   >= 1e-9); the neighbourhood is `{j | d(i,j) < tol}` computed here from the
+//!                   >= 1e-9, f32: 1e-5); the neighbourhood is `{j | d(i,j) < tol}` computed here from the
 //!                   coordinates, and the result must also be identical to the linear-scan run.
-//!   stream=radius : the tolerance equals (or is within 1e-9 of) an inter-point distance — whether such
+//!   stream=radius : the tolerance equals (or is that close to) an inter-point distance — whether such
 //!                   a point is "within" is the border question of C07; here the neighbourhood is
 //!                   the recorded query result (if symmetric) and indices are not compared.
 use crate::util::*;
 use linfa::traits::Transformer;
-use linfa::ParamGuard;
-use linfa_clustering::{Dbscan, Optics};
-use linfa_nn::distance::{Distance, L1Dist, L2Dist, LInfDist};
+use linfa::{DatasetBase, Float, ParamGuard};
+use linfa_clustering::{Dbscan, DbscanParamsError, DbscanValidParams, Optics, OpticsError, OpticsValidParams};
+use linfa_nn::distance::{Distance, L1Dist, L2Dist, LInfDist, LpDist};
 use linfa_nn::{BuildError, CommonNearestNeighbour, NearestNeighbour};
-use ndarray::Array2;
+use ndarray::{s, Array1, Array2, ArrayView2, ShapeBuilder};
+use std::cell::Cell;
 use std::panic::{catch_unwind, AssertUnwindSafe};
 
 #[derive(Clone, Copy, PartialEq)]
@@ -28,6 +39,9 @@ enum Met {
     L1,
     L2,
     Linf,
+    /// `LpDist(p)`: only here to make the `dist_fn` setter observable (a parameterised distance)
+    Lp15,
+    Lp3,
 }
 impl Met {
     fn name(self) -> &'static str {
@@ -35,14 +49,19 @@ impl Met {
             Met::L1 => "L1",
             Met::L2 => "L2",
             Met::Linf => "Linf",
+            Met::Lp15 => "Lp1.5",
+            Met::Lp3 => "Lp3",
         }
     }
     /// distance from the coordinates, written out here (not linfa's)
     fn my(self, a: &[f64], b: &[f64]) -> f64 {
+        let lp = |p: f64| a.iter().zip(b).fold(0.0, |s, (x, y)| s + (x - y).abs().powf(p)).powf(1.0 / p);
         match self {
             Met::L1 => a.iter().zip(b).fold(0.0, |s, (x, y)| s + (x - y).abs()),
             Met::L2 => a.iter().zip(b).fold(0.0, |s, (x, y)| s + (x - y) * (x - y)).sqrt(),
             Met::Linf => a.iter().zip(b).fold(0.0, |s, (x, y)| f64::max(s, (x - y).abs())),
+            Met::Lp15 => lp(1.5),
+            Met::Lp3 => lp(3.0),
         }
     }
 }
@@ -52,6 +71,79 @@ const IDX: [(CommonNearestNeighbour, &str); 3] = [
     (CommonNearestNeighbour::KdTree, "kdtree"),
     (CommonNearestNeighbour::BallTree, "balltree"),
 ];
+fn other_index(ix: &CommonNearestNeighbour) -> CommonNearestNeighbour {
+    match ix {
+        CommonNearestNeighbour::LinearSearch => CommonNearestNeighbour::BallTree,
+        CommonNearestNeighbour::KdTree => CommonNearestNeighbour::LinearSearch,
+        _ => CommonNearestNeighbour::KdTree,
+    }
+}
+
+/// memory layout of the records handed to `transform`
+#[derive(Clone, Copy, PartialEq)]
+enum Lay {
+    /// owned, C order
+    C,
+    /// owned, Fortran order
+    F,
+    /// transposed view of a `p x n` array
+    T,
+    /// every second row and column of a larger array (rows not contiguous)
+    Strided,
+    /// every second row of a larger array (rows contiguous, not standard layout)
+    RowStep,
+}
+impl Lay {
+    fn name(self) -> &'static str {
+        match self {
+            Lay::C => "c",
+            Lay::F => "f",
+            Lay::T => "t",
+            Lay::Strided => "strided",
+            Lay::RowStep => "rowstep",
+        }
+    }
+}
+/// how the hyper-parameters are built
+#[derive(Clone, Copy, PartialEq)]
+enum Ctor {
+    /// `params_with(mp, dist, index)`
+    With,
+    /// `params(mp)` (L2 + k-d tree; used only for that combination)
+    Default,
+    /// `params_with(mp, other dist, other index).dist_fn(dist).nn_algo(index)`
+    Setters,
+}
+impl Ctor {
+    fn name(self) -> &'static str {
+        match self {
+            Ctor::With => "with",
+            Ctor::Default => "default",
+            Ctor::Setters => "setters",
+        }
+    }
+}
+
+#[derive(Clone, PartialEq)]
+struct Cfg {
+    /// coordinates, exactly representable in the scalar type
+    pts: Vec<Vec<f64>>,
+    p: usize,
+    kind: &'static str,
+    m: Met,
+    /// exactly representable in the scalar type
+    tol: f64,
+    mp: usize,
+    f32: bool,
+    lay: Lay,
+    /// DBSCAN through `Transformer<DatasetBase<..>>`
+    dataset: bool,
+    ctor: Ctor,
+    /// `.tolerance()` not called: DBSCAN default 1e-4 (requires `tol` = that value)
+    notol_db: bool,
+    /// `.tolerance()` not called: OPTICS default infinity (requires `tol` = inf)
+    notol_op: bool,
+}
 
 type OptOut = Vec<(usize, Option<f64>, Option<f64>)>;
 
@@ -65,63 +157,203 @@ struct Real {
     dm: Vec<Vec<f64>>,
 }
 
-fn arr(pts: &[Vec<f64>], p: usize) -> Array2<f64> {
-    Array2::from_shape_fn((pts.len(), p), |(i, j)| pts[i][j])
+fn f64of<F: Float>(x: F) -> f64 {
+    x.to_f64().unwrap()
 }
 
-fn observe<D: Distance<f64> + Clone>(x: &Array2<f64>, d: D, ix: &CommonNearestNeighbour, tol: f64) -> Real {
-    let n = x.nrows();
-    // records without features: linfa's distance functions reject empty views; the distance of two
-    // empty vectors is 0
-    let dm: Vec<Vec<f64>> = if x.ncols() == 0 { vec![vec![0.0; n]; n] } else { (0..n).map(|i| (0..n).map(|j| d.distance(x.row(i), x.row(j))).collect()).collect() };
-    match ix.from_batch(x, d.clone()) {
-        Err(BuildError::ZeroDimension) => Real { zd: true, nb: vec![], nd: vec![], dm },
-        Err(e) => panic!("index build: {}", e),
-        Ok(nn) => {
-            let nb: Vec<Vec<usize>> = (0..n).map(|i| nn.within_range(x.row(i), tol).unwrap().into_iter().map(|(_, j)| j).collect()).collect();
-            let nd = nb.iter().enumerate().map(|(i, l)| l.iter().map(|&j| dm[i][j]).collect()).collect();
-            Real { zd: false, nb, nd, dm }
+/// run `f` on the records in the requested memory layout
+fn with_view<F: Float, R>(pts: &[Vec<f64>], p: usize, lay: Lay, f: impl FnOnce(ArrayView2<F>) -> R) -> R {
+    let n = pts.len();
+    let junk = F::cast(777.25);
+    match lay {
+        Lay::C => {
+            let a = Array2::from_shape_fn((n, p), |(i, j)| F::cast(pts[i][j]));
+            f(a.view())
+        }
+        Lay::F => {
+            let a = Array2::from_shape_fn((n, p).f(), |(i, j)| F::cast(pts[i][j]));
+            f(a.view())
+        }
+        Lay::T => {
+            let a = Array2::from_shape_fn((p, n), |(j, i)| F::cast(pts[i][j]));
+            f(a.t())
+        }
+        Lay::Strided => {
+            let a = Array2::from_shape_fn((2 * n, 2 * p), |(i, j)| if i % 2 == 0 && j % 2 == 0 { F::cast(pts[i / 2][j / 2]) } else { junk });
+            f(a.slice(s![..;2, ..;2]))
+        }
+        Lay::RowStep => {
+            let a = Array2::from_shape_fn((2 * n, p), |(i, j)| if i % 2 == 0 { F::cast(pts[i / 2][j]) } else { junk });
+            f(a.slice(s![..;2, ..]))
         }
     }
 }
 
-fn run_dbscan<D: Distance<f64> + Clone>(x: &Array2<f64>, d: D, ix: &CommonNearestNeighbour, tol: f64, mp: usize) -> Vec<Option<usize>> {
-    let params = Dbscan::params_with::<f64, _, _>(mp, d, ix.clone()).tolerance(tol).check_unwrap();
-    params.transform(x).to_vec()
+/// generic-closure substitute: something to do with the configured distance function
+trait WithDist<F: Float> {
+    type Out;
+    /// `d` = the configured distance, `d0` = a different value of the same type where one exists
+    fn call<D: Distance<F> + Clone>(self, d: D, d0: D) -> Self::Out;
+}
+fn with_dist<F: Float, W: WithDist<F>>(m: Met, w: W) -> W::Out {
+    match m {
+        Met::L1 => w.call(L1Dist, L1Dist),
+        Met::L2 => w.call(L2Dist, L2Dist),
+        Met::Linf => w.call(LInfDist, LInfDist),
+        Met::Lp15 => w.call(LpDist(F::cast(1.5)), LpDist(F::cast(1.0))),
+        Met::Lp3 => w.call(LpDist(F::cast(3.0)), LpDist(F::cast(1.0))),
+    }
 }
 
-fn run_optics<D: Distance<f64> + Clone>(x: &Array2<f64>, d: D, ix: &CommonNearestNeighbour, tol: f64, mp: usize) -> OptOut {
-    let params = Optics::params_with::<f64, _, _>(mp, d, ix.clone()).tolerance(tol).check_unwrap();
-    let res = params.transform(x.view());
-    res.iter().map(|s| (s.index(), *s.core_distance(), *s.reachability_distance())).collect()
+struct Observe<'a> {
+    cfg: &'a Cfg,
+    ix: &'a CommonNearestNeighbour,
+}
+impl<F: Float> WithDist<F> for Observe<'_> {
+    type Out = Real;
+    fn call<D: Distance<F> + Clone>(self, d: D, _d0: D) -> Real {
+        let cfg = self.cfg;
+        // the index is observed on a C-order copy; `transform` gets the configured layout
+        with_view::<F, _>(&cfg.pts, cfg.p, Lay::C, |x| {
+            let n = x.nrows();
+            let tol = F::cast(cfg.tol);
+            // records without features: linfa's distance functions reject empty views; the distance of two
+            // empty vectors is 0
+            let dm: Vec<Vec<f64>> = if x.ncols() == 0 { vec![vec![0.0; n]; n] } else { (0..n).map(|i| (0..n).map(|j| f64of(d.distance(x.row(i), x.row(j)))).collect()).collect() };
+            match self.ix.from_batch(&x, d.clone()) {
+                Err(BuildError::ZeroDimension) => Real { zd: true, nb: vec![], nd: vec![], dm },
+                Err(e) => panic!("index build: {}", e),
+                Ok(nn) => {
+                    let nb: Vec<Vec<usize>> = (0..n).map(|i| nn.within_range(x.row(i), tol).unwrap().into_iter().map(|(_, j)| j).collect()).collect();
+                    let nd = nb.iter().enumerate().map(|(i, l)| l.iter().map(|&j| dm[i][j]).collect()).collect();
+                    Real { zd: false, nb, nd, dm }
+                }
+            }
+        })
+    }
 }
 
-macro_rules! with_metric {
-    ($m:expr, $f:ident ( $($a:expr),* )) => {
-        match $m {
-            Met::L1 => $f($($a),*, L1Dist),
-            Met::L2 => $f($($a),*, L2Dist),
-            Met::Linf => $f($($a),*, LInfDist),
+/// result of the DBSCAN call plus what the dataset form returned besides the labels
+struct DbOut {
+    labels: Vec<Option<usize>>,
+    /// dataset form: the returned records equal the records passed in
+    records_kept: bool,
+}
+
+fn db_transform<F: Float, D: Distance<F>, N: NearestNeighbour>(params: &DbscanValidParams<F, D, N>, cfg: &Cfg) -> DbOut {
+    with_view::<F, _>(&cfg.pts, cfg.p, cfg.lay, |v| {
+        if cfg.dataset {
+            // targets of an earlier labelling, to be replaced
+            let ds = DatasetBase::new(v, Array1::from_elem(v.nrows(), 7usize));
+            let out = params.transform(ds);
+            DbOut { labels: out.targets.to_vec(), records_kept: out.records == v }
+        } else if cfg.lay == Lay::C {
+            let owned = v.to_owned();
+            DbOut { labels: params.transform(&owned).to_vec(), records_kept: true }
+        } else {
+            DbOut { labels: params.transform(&v).to_vec(), records_kept: true }
         }
-    };
+    })
 }
-fn observe_m(x: &Array2<f64>, ix: &CommonNearestNeighbour, tol: f64, m: Met) -> Real {
-    fn go<D: Distance<f64> + Clone>(x: &Array2<f64>, ix: &CommonNearestNeighbour, tol: f64, d: D) -> Real {
-        observe(x, d, ix, tol)
-    }
-    with_metric!(m, go(x, ix, tol))
+
+struct RunDb<'a> {
+    cfg: &'a Cfg,
+    ix: &'a CommonNearestNeighbour,
 }
-fn dbscan_m(x: &Array2<f64>, ix: &CommonNearestNeighbour, tol: f64, mp: usize, m: Met) -> Vec<Option<usize>> {
-    fn go<D: Distance<f64> + Clone>(x: &Array2<f64>, ix: &CommonNearestNeighbour, tol: f64, mp: usize, d: D) -> Vec<Option<usize>> {
-        run_dbscan(x, d, ix, tol, mp)
+impl<F: Float> WithDist<F> for RunDb<'_> {
+    type Out = DbOut;
+    fn call<D: Distance<F> + Clone>(self, d: D, d0: D) -> DbOut {
+        let cfg = self.cfg;
+        let b = match cfg.ctor {
+            Ctor::Setters => Dbscan::params_with::<F, _, _>(cfg.mp, d0, other_index(self.ix)).dist_fn(d).nn_algo(self.ix.clone()),
+            _ => Dbscan::params_with::<F, _, _>(cfg.mp, d, self.ix.clone()),
+        };
+        let b = if cfg.notol_db { b } else { b.tolerance(F::cast(cfg.tol)) };
+        db_transform(&b.check_unwrap(), cfg)
     }
-    with_metric!(m, go(x, ix, tol, mp))
 }
-fn optics_m(x: &Array2<f64>, ix: &CommonNearestNeighbour, tol: f64, mp: usize, m: Met) -> OptOut {
-    fn go<D: Distance<f64> + Clone>(x: &Array2<f64>, ix: &CommonNearestNeighbour, tol: f64, mp: usize, d: D) -> OptOut {
-        run_optics(x, d, ix, tol, mp)
+fn run_dbscan_f<F: Float>(cfg: &Cfg, ix: &CommonNearestNeighbour) -> DbOut {
+    if cfg.ctor == Ctor::Default && cfg.m == Met::L2 && *ix == CommonNearestNeighbour::KdTree {
+        let b = Dbscan::params::<F>(cfg.mp);
+        let b = if cfg.notol_db { b } else { b.tolerance(F::cast(cfg.tol)) };
+        db_transform(&b.check_unwrap(), cfg)
+    } else {
+        with_dist::<F, _>(cfg.m, RunDb { cfg, ix })
     }
-    with_metric!(m, go(x, ix, tol, mp))
+}
+
+/// OPTICS result plus: `as_slice`, `iter` and indexing show the same samples
+struct OpOut {
+    out: OptOut,
+    accessors_agree: bool,
+}
+fn op_transform<F: Float, D: Distance<F>, N: NearestNeighbour>(params: &OpticsValidParams<F, D, N>, cfg: &Cfg) -> OpOut {
+    with_view::<F, _>(&cfg.pts, cfg.p, cfg.lay, |v| {
+        let res = params.transform(v);
+        let conv = |s: &linfa_clustering::Sample<F>| (s.index(), s.core_distance().map(f64of), s.reachability_distance().map(f64of));
+        let out: OptOut = res.iter().map(conv).collect();
+        let sl: OptOut = res.as_slice().iter().map(conv).collect();
+        let by_index: OptOut = (0..sl.len()).map(|k| conv(&res[k])).collect();
+        let by_range: OptOut = res[..].iter().map(conv).collect();
+        OpOut { accessors_agree: sl == out && by_index == out && by_range == out, out }
+    })
+}
+struct RunOp<'a> {
+    cfg: &'a Cfg,
+    ix: &'a CommonNearestNeighbour,
+}
+impl<F: Float> WithDist<F> for RunOp<'_> {
+    type Out = OpOut;
+    fn call<D: Distance<F> + Clone>(self, d: D, d0: D) -> OpOut {
+        let cfg = self.cfg;
+        let b = match cfg.ctor {
+            Ctor::Setters => Optics::params_with::<F, _, _>(cfg.mp, d0, other_index(self.ix)).dist_fn(d).nn_algo(self.ix.clone()),
+            _ => Optics::params_with::<F, _, _>(cfg.mp, d, self.ix.clone()),
+        };
+        let b = if cfg.notol_op { b } else { b.tolerance(F::cast(cfg.tol)) };
+        op_transform(&b.check_unwrap(), cfg)
+    }
+}
+fn run_optics_f<F: Float>(cfg: &Cfg, ix: &CommonNearestNeighbour) -> OpOut {
+    if cfg.ctor == Ctor::Default && cfg.m == Met::L2 && *ix == CommonNearestNeighbour::KdTree {
+        let b = Optics::params::<F>(cfg.mp);
+        let b = if cfg.notol_op { b } else { b.tolerance(F::cast(cfg.tol)) };
+        op_transform(&b.check_unwrap(), cfg)
+    } else {
+        with_dist::<F, _>(cfg.m, RunOp { cfg, ix })
+    }
+}
+
+fn observe_c(cfg: &Cfg, ix: &CommonNearestNeighbour) -> Real {
+    if cfg.f32 {
+        with_dist::<f32, _>(cfg.m, Observe { cfg, ix })
+    } else {
+        with_dist::<f64, _>(cfg.m, Observe { cfg, ix })
+    }
+}
+fn dbscan_c(cfg: &Cfg, ix: &CommonNearestNeighbour) -> DbOut {
+    if cfg.f32 {
+        run_dbscan_f::<f32>(cfg, ix)
+    } else {
+        run_dbscan_f::<f64>(cfg, ix)
+    }
+}
+fn optics_c(cfg: &Cfg, ix: &CommonNearestNeighbour) -> OpOut {
+    if cfg.f32 {
+        run_optics_f::<f32>(cfg, ix)
+    } else {
+        run_optics_f::<f64>(cfg, ix)
+    }
+}
+/// the reference run for `index_independent`: linear scan, plain form (C order, `params_with`, array)
+fn reference(cfg: &Cfg) -> Cfg {
+    let mut c = cfg.clone();
+    c.lay = Lay::C;
+    c.ctor = Ctor::With;
+    c.dataset = false;
+    c.notol_db = false;
+    c.notol_op = false;
+    c
 }
 
 fn show_labels(l: &[Option<usize>]) -> String {
@@ -129,6 +361,43 @@ fn show_labels(l: &[Option<usize>]) -> String {
         Some(c) => c.to_string(),
         None => "-".to_string(),
     })
+}
+/// the part of a DBSCAN labelling the statement fixes, computed from the recorded query results
+/// (same function in Drv/C08.lean): noise `-`; core samples by cluster, clusters renumbered by their
+/// first core sample; a border sample by the cluster of the core samples that have it in their query
+/// result, `b` if those carry two different labels, `?<raw>` if its label is not among them.
+fn canon_labels(nb: &[Vec<usize>], mp: usize, labels: &[Option<usize>]) -> String {
+    let n = labels.len();
+    let core: Vec<bool> = (0..n).map(|i| nb.get(i).map_or(false, |l| l.len() >= mp)).collect();
+    let mut ren: Vec<(usize, usize)> = vec![];
+    for i in 0..n {
+        if let (true, Some(c)) = (core[i], labels[i]) {
+            if !ren.iter().any(|(o, _)| *o == c) {
+                let k = ren.len();
+                ren.push((c, k));
+            }
+        }
+    }
+    let new = |c: usize| ren.iter().find(|(o, _)| *o == c).map(|(_, k)| k.to_string()).unwrap_or(format!("?{}", c));
+    let toks: Vec<String> = (0..n)
+        .map(|i| match labels[i] {
+            None => "-".to_string(),
+            Some(c) if core[i] => new(c),
+            Some(c) => {
+                let mut ls: Vec<usize> = nb.get(i).map_or(vec![], |l| l.iter().filter(|&&j| j < n && core[j]).filter_map(|&j| labels[j]).collect());
+                ls.sort();
+                ls.dedup();
+                if !ls.contains(&c) {
+                    format!("?{}", c)
+                } else if ls.len() >= 2 {
+                    "b".to_string()
+                } else {
+                    new(c)
+                }
+            }
+        })
+        .collect();
+    toks.join(",")
 }
 fn show_opt(x: &Option<f64>) -> String {
     match x {
@@ -275,7 +544,7 @@ fn gen_points(em: &mut Em, rng: &mut Rng) -> (Vec<Vec<f64>>, usize, &'static str
     let scale = *rng.pick(&[1.0, 1.0, 0.5, 0.25, 4.0]);
     let kind = rng.below(12);
     let mut hint: Option<(f64, usize)> = None;
-    let mut p = 1 + rng.below(3);
+    let mut p = if rng.chance(1, 6) { 4 + rng.below(3) } else { 1 + rng.below(3) };
     let mut pts: Vec<Vec<i64>> = vec![];
     let name: &'static str;
     match kind {
@@ -445,7 +714,8 @@ fn gen_tol(rng: &mut Rng, pts: &[Vec<f64>], m: Met) -> (f64, bool) {
     if rng.chance(1, 25) {
         return (f64::INFINITY, true);
     }
-    let k = if rng.coin() { rng.below(v.len().min(3)) } else { rng.below(v.len().min(8)) };
+    // mostly the smallest few distinct distances, one time in five any of them (medium / large radii)
+    let k = if rng.chance(1, 5) { rng.below(v.len()) } else if rng.coin() { rng.below(v.len().min(3)) } else { rng.below(v.len().min(8)) };
     if rng.chance(1, 4) {
         // on the radius
         (v[k], false)
@@ -473,43 +743,207 @@ fn margin(pts: &[Vec<f64>], m: Met, tol: f64) -> f64 {
     best
 }
 
-pub fn run(em: &mut Em, rng: &mut Rng) {
-    let configs = if em.thorough() { 25000 } else { 1500 };
-    // the design's witness for the neighbour-order dependence of the OPTICS core distance first
-    one_config(em, vec![vec![0.0], vec![3.0], vec![0.5], vec![2.5], vec![1.0], vec![9.0], vec![9.5]], 1, "witness", Met::L2, 2.75, 3);
-    one_config(em, vec![vec![0.0, 0.0], vec![3.0, 4.0], vec![6.0, 8.0], vec![3.0, 4.0]], 2, "witness", Met::L2, 5.0, 2);
-    // start sample listed after the samples it reaches (before the fix): sample 4 had reachability 4 from sample 1 listed later
-    one_config(em, vec![vec![6.0], vec![2.0], vec![5.0], vec![0.0], vec![6.0]], 1, "witness", Met::L2, 5.5, 5);
-    for _ in 0..configs {
-        let (pts, p, kind, hint) = gen_points(em, rng);
-        let m = *rng.pick(&[Met::L1, Met::L2, Met::Linf]);
-        let (mut tol, _) = gen_tol(rng, &pts, m);
-        let n = pts.len();
-        let mut mp = if rng.chance(1, 15) { n + 1 + rng.below(2) } else { 2 + rng.below(4) }.max(2);
-        if let Some((t, k)) = hint {
-            if rng.chance(3, 4) {
-                tol = t;
-                mp = k;
-            }
-        }
-        one_config(em, pts, p, kind, m, tol, mp);
+fn round_ty(x: f64, f32_: bool) -> f64 {
+    if f32_ {
+        (x as f32) as f64
+    } else {
+        x
     }
 }
 
-fn one_config(em: &mut Em, pts: Vec<Vec<f64>>, p: usize, kind: &'static str, m: Met, tol: f64, mp: usize) {
+pub fn run(em: &mut Em, rng: &mut Rng) {
+    let configs = if em.thorough() { 25000 } else { 1500 };
+    params_grid(em);
+    let plain = |pts: Vec<Vec<f64>>, p: usize, m: Met, tol: f64, mp: usize| Cfg { pts, p, kind: "witness", m, tol, mp, f32: false, lay: Lay::C, dataset: false, ctor: Ctor::With, notol_db: false, notol_op: false };
+    // the design's witness for the neighbour-order dependence of the OPTICS core distance first
+    one_config(em, &plain(vec![vec![0.0], vec![3.0], vec![0.5], vec![2.5], vec![1.0], vec![9.0], vec![9.5]], 1, Met::L2, 2.75, 3));
+    one_config(em, &plain(vec![vec![0.0, 0.0], vec![3.0, 4.0], vec![6.0, 8.0], vec![3.0, 4.0]], 2, Met::L2, 5.0, 2));
+    // start sample listed after the samples it reaches (before the fix): sample 4 had reachability 4 from sample 1 listed later
+    one_config(em, &plain(vec![vec![6.0], vec![2.0], vec![5.0], vec![0.0], vec![6.0]], 1, Met::L2, 5.5, 5));
+    // the k-d tree needs contiguous rows: Fortran-order records (2 features) made the default index panic
+    {
+        let mut c = plain(vec![vec![0.0, 0.0], vec![1.0, 0.0], vec![0.0, 1.0], vec![9.0, 9.0]], 2, Met::L2, 1.25, 2);
+        c.lay = Lay::F;
+        c.ctor = Ctor::Default;
+        one_config(em, &c);
+    }
+    for _ in 0..configs {
+        let (mut pts, p, kind, hint) = gen_points(em, rng);
+        let f32_ = rng.chance(1, 3);
+        let n = pts.len();
+        // metric: the three of the statement; a parameterised Lp only to make the dist_fn setter observable
+        let ctor = *rng.pick(&[Ctor::With, Ctor::With, Ctor::Default, Ctor::Setters]);
+        let m = if ctor == Ctor::Setters && rng.coin() { *rng.pick(&[Met::Lp15, Met::Lp3]) } else { *rng.pick(&[Met::L1, Met::L2, Met::Linf]) };
+        // "tiny": lattice coordinates in units of 2^-14, so that DBSCAN's default tolerance 1e-4 separates
+        // one step (6.1e-5) from two
+        let tiny = kind != "generic" && kind != "zero_features" && rng.chance(1, 10);
+        if tiny {
+            for r in pts.iter_mut() {
+                for c in r.iter_mut() {
+                    *c *= 1.0 / 16384.0;
+                }
+            }
+        }
+        for r in pts.iter_mut() {
+            for c in r.iter_mut() {
+                *c = round_ty(*c, f32_);
+            }
+        }
+        let (mut tol, _) = gen_tol(rng, &pts, m);
+        let mut mp = if rng.chance(1, 15) {
+            n + 1 + rng.below(2)
+        } else if n >= 6 && rng.chance(1, 5) {
+            // large min_points, up to n
+            6 + rng.below(n - 5)
+        } else {
+            2 + rng.below(4)
+        }
+        .max(2);
+        if let Some((t, k)) = hint {
+            if rng.chance(3, 4) {
+                tol = if tiny { t / 16384.0 } else { t };
+                mp = k;
+            }
+        }
+        let mut notol_db = false;
+        if tiny && rng.chance(2, 3) {
+            tol = 1e-4;
+            notol_db = rng.chance(2, 3);
+        }
+        tol = round_ty(tol, f32_);
+        let notol_op = tol.is_infinite() && rng.coin();
+        let lay = *rng.pick(&[Lay::C, Lay::C, Lay::C, Lay::F, Lay::T, Lay::Strided, Lay::RowStep]);
+        let dataset = rng.chance(1, 4);
+        em.count(&format!("kind:{}", kind));
+        if tiny {
+            em.count("tiny_scale");
+        }
+        one_config(em, &Cfg { pts, p, kind, m, tol, mp, f32: f32_, lay, dataset, ctor, notol_db, notol_op });
+    }
+}
+
+/// hyper-parameter glue: constructors, setters, `check` / `check_ref`, accessors
+fn params_grid(em: &mut Em) {
+    let tols: [f64; 10] = [-1.0, -0.0, 0.0, 1e-300, 1e-30, 0.5, 1e-4, f64::INFINITY, f64::NEG_INFINITY, f64::NAN];
+    for algo in ["dbscan", "optics"] {
+        for f32_ in [false, true] {
+            for mp in [0usize, 1, 2, 3, 17] {
+                for ctor in [Ctor::With, Ctor::Default, Ctor::Setters] {
+                    for k in 0..=tols.len() {
+                        let notol = k == tols.len();
+                        let tol = if notol { 0.0 } else { round_ty(tols[k], f32_) };
+                        let ty = if f32_ { "f32" } else { "f64" };
+                        let tol_s = if tol.is_nan() { "nan".to_string() } else { hex64(tol) };
+                        let op = format!("params algo={} ty={} mp={} tol={} notol={} ctor={}", algo, ty, mp, tol_s, notol as u8, ctor.name());
+                        let class = format!("params:{}:ty={}:ctor={}", algo, ty, ctor.name());
+                        em.case_valid(op, &class, |ctx| if f32_ { params_case::<f32>(ctx, &class, algo, mp, tol, notol, ctor) } else { params_case::<f64>(ctx, &class, algo, mp, tol, notol, ctor) });
+                    }
+                }
+            }
+        }
+    }
+}
+fn show_tol(t: f64) -> String {
+    if t.is_nan() {
+        "nan".to_string()
+    } else {
+        hex64(t)
+    }
+}
+fn params_case<F: Float>(ctx: &mut Ctx, class: &str, algo: &str, mp: usize, tol: f64, notol: bool, ctor: Ctor) -> String {
+    let kd = CommonNearestNeighbour::KdTree;
+    // what the statement's guard says: min_points >= 2, tolerance > 0
+    let tol_eff = if notol { if algo == "dbscan" { f64of(F::cast(1e-4)) } else { f64::INFINITY } } else { tol };
+    let valid = mp >= 2 && !(tol_eff <= 0.0);
+    if algo == "dbscan" {
+        let b = match ctor {
+            Ctor::With => Dbscan::params_with::<F, _, _>(mp, L2Dist, kd.clone()),
+            Ctor::Default => Dbscan::params::<F>(mp),
+            Ctor::Setters => Dbscan::params_with::<F, _, _>(mp, L2Dist, CommonNearestNeighbour::LinearSearch).dist_fn(L2Dist).nn_algo(kd.clone()),
+        };
+        let b = if notol { b } else { b.tolerance(F::cast(tol)) };
+        let by_ref = b.check_ref().is_ok();
+        let r = b.check();
+        ctx.require(by_ref == r.is_ok(), "params_guard", class, || "check_ref and check disagree".to_string());
+        ctx.require(r.is_ok() == valid, "params_guard", class, || format!("min_points {} tolerance {}: accepted={}, the guard says {}", mp, tol_eff, r.is_ok(), valid));
+        match r {
+            Ok(v) => {
+                ctx.require(*v.nn_algo() == kd && *v.dist_fn() == L2Dist, "params_accessors", class, || format!("nn_algo {:?}", v.nn_algo()));
+                format!("ok mp={} tol={}", v.minimum_points(), show_tol(f64of(v.tolerance())))
+            }
+            Err(DbscanParamsError::MinPoints) => "err MinPoints".to_string(),
+            Err(DbscanParamsError::Tolerance) => "err Tolerance".to_string(),
+        }
+    } else {
+        let b = match ctor {
+            Ctor::With => Optics::params_with::<F, _, _>(mp, L2Dist, kd.clone()),
+            Ctor::Default => Optics::params::<F>(mp),
+            Ctor::Setters => Optics::params_with::<F, _, _>(mp, L2Dist, CommonNearestNeighbour::LinearSearch).dist_fn(L2Dist).nn_algo(kd.clone()),
+        };
+        let b = if notol { b } else { b.tolerance(F::cast(tol)) };
+        let by_ref = b.check_ref().is_ok();
+        let r = b.check();
+        ctx.require(by_ref == r.is_ok(), "params_guard", class, || "check_ref and check disagree".to_string());
+        ctx.require(r.is_ok() == valid, "params_guard", class, || format!("min_points {} tolerance {}: accepted={}, the guard says {}", mp, tol_eff, r.is_ok(), valid));
+        match r {
+            Ok(v) => {
+                ctx.require(*v.nn_algo() == kd && *v.dist_fn() == L2Dist, "params_accessors", class, || format!("nn_algo {:?}", v.nn_algo()));
+                format!("ok mp={} tol={}", v.minimum_points(), show_tol(f64of(v.tolerance())))
+            }
+            Err(OpticsError::InvalidValue(msg)) => {
+                if msg.contains("tolerance") {
+                    "err Tolerance".to_string()
+                } else if msg.contains("min_points") {
+                    "err MinPoints".to_string()
+                } else {
+                    format!("err other:{}", hexstr(&msg))
+                }
+            }
+        }
+    }
+}
+
+fn one_config(em: &mut Em, cfg: &Cfg) {
+    let (pts, p, m, tol, mp) = (&cfg.pts, cfg.p, cfg.m, cfg.tol, cfg.mp);
     let n = pts.len();
-    let x = arr(&pts, p);
-    let main = margin(&pts, m, tol) >= 1e-9;
+    let main = margin(pts, m, tol) >= if cfg.f32 { 1e-5 } else { 1e-9 };
     let stream = if main { "main" } else { "radius" };
-    em.count(&format!("kind:{}", kind));
+    let ty = if cfg.f32 { "f32" } else { "f64" };
     em.count(&format!("stream:{}", stream));
     em.count(&format!("metric:{}", m.name()));
     em.count(&format!("n:{}", if n == 0 { "0" } else if n <= 4 { "1-4" } else if n <= 16 { "5-16" } else { ">16" }));
-    em.count(&format!("mp:{}", if mp > n { ">n".to_string() } else { mp.to_string() }));
+    em.count(&format!("mp:{}", if mp > n { ">n".to_string() } else if mp >= 6 { "6..n".to_string() } else { mp.to_string() }));
+    em.count(&format!("features:{}", if p >= 4 { "4-6".to_string() } else { p.to_string() }));
+    em.count(&format!("ty:{}", ty));
+    em.count(&format!("lay:{}", cfg.lay.name()));
+    em.count(&format!("ctor:{}", cfg.ctor.name()));
+    if cfg.dataset {
+        em.count("form:dataset");
+    }
+    if cfg.notol_db {
+        em.count("dbscan_default_tolerance");
+    }
+    if cfg.notol_op {
+        em.count("optics_default_tolerance");
+    }
     let feat = if p == 0 { "0" } else { "pos" };
+    let refc = reference(cfg);
+    let tail = format!(
+        "pts={} tol={} metric={} ty={} lay={} form={} ctor={} notol={}{}",
+        list2(pts.iter().map(|r| r.iter()), |c| hex64(*c)),
+        hex64(tol),
+        m.name(),
+        ty,
+        cfg.lay.name(),
+        if cfg.dataset { "dataset" } else { "array" },
+        cfg.ctor.name(),
+        cfg.notol_db as u8,
+        cfg.notol_op as u8
+    );
     for (ix, ixname) in IDX.iter() {
-        let cls = |algo: &str| format!("{}:index={}:metric={}:feat={}:stream={}", algo, ixname, m.name(), feat, stream);
-        let obs = catch_unwind(AssertUnwindSafe(|| observe_m(&x, ix, tol, m)));
+        let ctor_eff = if cfg.ctor == Ctor::Default && !(m == Met::L2 && *ixname == "kdtree") { Ctor::With } else { cfg.ctor };
+        let cls = |algo: &str| format!("{}:index={}:metric={}:feat={}:stream={}:ty={}:lay={}:ctor={}", algo, ixname, m.name(), feat, stream, ty, cfg.lay.name(), ctor_eff.name());
+        let obs = catch_unwind(AssertUnwindSafe(|| observe_c(cfg, ix)));
         let real = match obs {
             Ok(r) => r,
             Err(_) => {
@@ -525,9 +959,11 @@ fn one_config(em: &mut Em, pts: Vec<Vec<f64>>, p: usize, kind: &'static str, m: 
                 em.count(&format!("unsorted_neighbours:{}", ixname));
             }
         }
-        let adj = neighbourhood(&pts, m, tol, main, &real);
+        let adj = neighbourhood(pts, m, tol, main, &real);
         if adj.is_none() {
             em.count("oracle_skipped:radius_relation_unusable");
+        } else {
+            em.count(&format!("oracle_judged:{}", stream));
         }
         if let (Some(a), true) = (&adj, *ixname == "linear") {
             // shape of the instance (textbook terms), for the distribution record
@@ -535,7 +971,7 @@ fn one_config(em: &mut Em, pts: Vec<Vec<f64>>, p: usize, kind: &'static str, m: 
             let ncore = core.iter().filter(|b| **b).count();
             let border = (0..n).filter(|&i| !core[i] && (0..n).any(|j| a[i][j] && core[j])).count();
             let noise = n - ncore - border;
-            let labels_ref = if p == 0 { vec![None; n] } else { dbscan_m(&x, ix, tol, mp, m) };
+            let labels_ref = if p == 0 { vec![None; n] } else { catch_unwind(AssertUnwindSafe(|| dbscan_c(&refc, ix).labels)).unwrap_or(vec![None; n]) };
             let nclu = labels_ref.iter().filter_map(|l| *l).max().map(|c| c + 1).unwrap_or(0);
             em.count(&format!("clusters:{}", if nclu >= 3 { ">=3".to_string() } else { nclu.to_string() }));
             if border > 0 {
@@ -545,14 +981,15 @@ fn one_config(em: &mut Em, pts: Vec<Vec<f64>>, p: usize, kind: &'static str, m: 
                 em.count("with_noise_and_clusters");
             }
             // border point in range of cores of two different clusters
-            let shared = (0..n).any(|i| {
-                !core[i] && {
-                    let mut ls: Vec<usize> = (0..n).filter(|&j| a[i][j] && core[j]).filter_map(|j| labels_ref[j]).collect();
-                    ls.sort();
-                    ls.dedup();
-                    ls.len() >= 2
-                }
-            });
+            let shared = labels_ref.len() == n
+                && (0..n).any(|i| {
+                    !core[i] && {
+                        let mut ls: Vec<usize> = (0..n).filter(|&j| a[i][j] && core[j]).filter_map(|j| labels_ref[j]).collect();
+                        ls.sort();
+                        ls.dedup();
+                        ls.len() >= 2
+                    }
+                });
             if shared {
                 em.count("with_border_point_between_two_clusters");
             }
@@ -562,41 +999,67 @@ fn one_config(em: &mut Em, pts: Vec<Vec<f64>>, p: usize, kind: &'static str, m: 
         let nd_s = list2(real.nd.iter().map(|l| l.iter()), |d| hex64(*d));
         // ---- DBSCAN
         {
-            let op = format!("dbscan n={} mp={} zd={} nb={} pts={} tol={} metric={} index={}", n, mp, zd, nb_s, list2(pts.iter().map(|r| r.iter()), |c| hex64(*c)), hex64(tol), m.name(), ixname);
-            let c = cls("dbscan");
-            em.case_valid(op, &c, |ctx| {
-                let labels = dbscan_m(&x, ix, tol, mp, m);
+            let op = format!("dbscan n={} mp={} zd={} nb={} index={} {}", n, mp, zd, nb_s, ixname, tail);
+            let c0 = cls("dbscan");
+            let ran = Cell::new(false);
+            em.case_valid(op, &c0, |ctx| {
+                let out = dbscan_c(cfg, ix);
+                let labels = out.labels;
+                // zero features: the listed finding is "everything is noise"; anything else is a different failure
+                let c = if p == 0 { format!("{}:out={}", c0, if labels.iter().all(|l| l.is_none()) { "all_noise" } else { "other" }) } else { c0.clone() };
+                ctx.require(out.records_kept, "dataset_form", &c, || "the dataset returned by transform(DatasetBase) does not carry the records passed in".to_string());
                 if let Some(adj) = &adj {
                     oracle_dbscan(ctx, &c, adj, mp, &labels);
                 }
-                if main && *ixname != "linear" {
-                    let lin = dbscan_m(&x, &CommonNearestNeighbour::LinearSearch, tol, mp, m);
-                    ctx.require(lin == labels, "index_independent", &c, || format!("labels with {} {:?}, with the linear scan {:?}", ixname, labels, lin));
+                if main && !(*ixname == "linear" && *cfg == refc) {
+                    let lin = dbscan_c(&refc, &CommonNearestNeighbour::LinearSearch).labels;
+                    ctx.require(lin == labels, "index_independent", &c, || format!("labels with {} ({}, {}, {}) {:?}, with the linear scan on the plain form {:?}", ixname, cfg.lay.name(), ctor_eff.name(), if cfg.dataset { "dataset" } else { "array" }, labels, lin));
                 }
                 if labels.iter().all(|l| l.is_none()) {
                     ctx.mark_trivial();
                 }
-                format!("ok {}", show_labels(&labels))
+                ran.set(true);
+                format!("ok {}", canon_labels(&real.nb, mp, &labels))
             });
+            if ran.get() {
+                em.count(&format!("ran:dbscan:ty={}:lay={}:ctor={}:form={}", ty, cfg.lay.name(), ctor_eff.name(), if cfg.dataset { "dataset" } else { "array" }));
+                em.count(&format!("ran:dbscan:index={}:lay={}", ixname, cfg.lay.name()));
+                if cfg.notol_db {
+                    em.count("ran:dbscan:default_tolerance");
+                }
+            }
         }
         // ---- OPTICS
         {
-            let op = format!("optics n={} mp={} zd={} nb={} nd={} pts={} tol={} metric={} index={}", n, mp, zd, nb_s, nd_s, list2(pts.iter().map(|r| r.iter()), |c| hex64(*c)), hex64(tol), m.name(), ixname);
-            let c = cls("optics");
-            em.case_valid(op, &c, |ctx| {
-                let out = optics_m(&x, ix, tol, mp, m);
+            let op = format!("optics n={} mp={} zd={} nb={} nd={} index={} {}", n, mp, zd, nb_s, nd_s, ixname, tail);
+            let c0 = cls("optics");
+            let ran = Cell::new(false);
+            em.case_valid(op, &c0, |ctx| {
+                let res = optics_c(cfg, ix);
+                let out = res.out;
+                let c = if p == 0 { format!("{}:out={}", c0, if out.iter().all(|e| e.1.is_none() && e.2.is_none()) { "all_undefined" } else { "other" }) } else { c0.clone() };
+                ctx.require(res.accessors_agree, "accessors", &c, || "OpticsAnalysis::as_slice / iter / index do not show the same samples".to_string());
                 if let Some(adj) = &adj {
                     oracle_optics(ctx, &c, adj, &real.dm, mp, &out);
                 }
-                if main && *ixname != "linear" {
-                    let lin = optics_m(&x, &CommonNearestNeighbour::LinearSearch, tol, mp, m);
-                    ctx.require(lin == out, "index_independent", &c, || format!("ordering with {} {}, with the linear scan {}", ixname, show_optics(&out), show_optics(&lin)));
+                if main && !(*ixname == "linear" && *cfg == refc) {
+                    let lin = optics_c(&refc, &CommonNearestNeighbour::LinearSearch).out;
+                    ctx.require(lin == out, "index_independent", &c, || format!("ordering with {} ({}, {}) {}, with the linear scan on the plain form {}", ixname, cfg.lay.name(), ctor_eff.name(), show_optics(&out), show_optics(&lin)));
                 }
                 if out.iter().all(|e| e.1.is_none()) {
                     ctx.mark_trivial();
                 }
-                format!("ok {}", show_optics(&out))
+                ran.set(true);
+                // `margin`: 1 on this side; the model writes 0 when it met a tie between seeds
+                format!("ok {} margin=~{}", show_optics(&out), hex64(1.0))
             });
+            if ran.get() {
+                em.count(&format!("ran:optics:ty={}:lay={}:ctor={}", ty, cfg.lay.name(), ctor_eff.name()));
+                em.count(&format!("ran:optics:index={}:lay={}", ixname, cfg.lay.name()));
+                if cfg.notol_op {
+                    em.count("ran:optics:default_tolerance");
+                }
+            }
         }
     }
 }
